@@ -39,6 +39,9 @@ theorem validate_ok (d : Desc) (h : validateDesc d = .ok ()) :
     d.connections.any (fun c => !c.bidirectional) = false ∧
     distinctCount (d.protocols.map (·.addrW)) = 1 := by
   unfold validateDesc at h
+  by_cases c0 : (d.algo == .ID && !d.useIdTable && d.addrOffsetBits.isNone) = true
+  · rw [if_pos c0] at h; cases h
+  rw [if_neg c0] at h
   by_cases c1 : (d.endpoints.any (fun e => e.ranges.any rangeInvalid)) = true
   · rw [if_pos c1] at h; cases h
   rw [if_neg c1] at h
@@ -99,6 +102,15 @@ theorem reject_sbr_without_range (d : Desc) (ep : EpDesc) (hep : ep ∈ d.endpoi
   have hany : d.endpoints.any (fun e => e.isSbr && e.ranges.isEmpty) = true :=
     List.any_eq_true.2 ⟨ep, hep, by simp [hs, hr]⟩
   rw [hany] at this; cases this
+
+/-- **ID routing without address table and without `addr_offset_bits` is rejected** -/
+theorem reject_tableless_id_without_offset (sp : PathOracle) (d : Desc) (ha : d.algo = .ID)
+    (ht : d.useIdTable = false) (ho : d.addrOffsetBits = none) : ∃ e, genWith sp d = .error e := by
+  refine ⟨.schema "`addr_offset_bits` is required for ID routing without `use_id_table`",
+    gen_error_of_validate sp d _ ?_⟩
+  unfold validateDesc
+  rw [if_pos (by simp [ha, ht, ho])]
+  rfl
 
 /-- **duplicate endpoint names are rejected** -/
 theorem reject_duplicate_endpoint_names (d : Desc) (h : ¬ (d.endpoints.map (·.name)).Nodup) :
